@@ -25,6 +25,7 @@ import (
 	"net"
 	"strings"
 	"sync"
+	"sync/atomic"
 	"time"
 
 	mqPkts "github.com/eclipse/paho.mqtt.golang/packets"
@@ -50,9 +51,11 @@ type handler1 struct {
 	keepAlive        uint16
 	clientID         string
 	topicID          *util.IDSequence
-	pktBuffer        []snPkts.Packet
-	group            *errgroup.Group
-	transactions     *transactions.TransactionStore
+	// Set (atomically) once all the TopicIDs have been handed out.
+	topicIDsExhausted uint32
+	pktBuffer         []snPkts.Packet
+	group             *errgroup.Group
+	transactions      *transactions.TransactionStore
 	// for testing
 	mockupDialFunc func() net.Conn
 }
@@ -490,8 +493,14 @@ func (h *handler1) mqttReceiveLoop(ctx context.Context) error {
 }
 
 func (h *handler1) newTopicID() (uint16, error) {
+	// The ID sequence signalizes the overflow only once and then starts
+	// over. TopicIDs are never freed => we must not use it anymore.
+	if atomic.LoadUint32(&h.topicIDsExhausted) != 0 {
+		return 0, ErrTopicIDsExhausted
+	}
 	topicID, overflow := h.topicID.Next()
 	if overflow {
+		atomic.StoreUint32(&h.topicIDsExhausted, 1)
 		return 0, ErrTopicIDsExhausted
 	}
 	for {
@@ -499,6 +508,7 @@ func (h *handler1) newTopicID() (uint16, error) {
 			break
 		}
 		if topicID, overflow = h.topicID.Next(); overflow {
+			atomic.StoreUint32(&h.topicIDsExhausted, 1)
 			return 0, ErrTopicIDsExhausted
 		}
 	}
